@@ -166,6 +166,9 @@ def run_property(pid, tier, seed):
             for fn, e in summ["errors"].items():
                 if e["kind"] == "NotImplementedError":
                     continue
+                if e["kind"] == "CatalogError":
+                    ctx.fail("extract:" + fn, "catalog-broken", e)
+                    continue
                 if e["kind"] == "ProbeError":
                     # not a failing call: a proof obligation organised around an intermediate value can no longer be stated
                     if relevant(fn):
